@@ -6,7 +6,7 @@
 set -e
 S=${1:-/var/tmp/c09-fixed}; OUT=/verif/props/C09/findings
 cd $S
-BASE=$(git rev-list --max-parents=0 HEAD)
+BASE=$(git rev-parse c09-base)
 declare -A DEPENDS=( [pem-footer-overlap-negative-length]=pem-unterminated-strstr [pem-empty-input-null-item]=pem-unterminated-strstr [pem-encrypted-partial-block-overflow]=pem-unterminated-strstr )
 names=$(git log --reverse --format='%s' $BASE..main | sed 's/ ([0-9]*)$//' | awk '!seen[$0]++')
 fail=0
